@@ -98,11 +98,14 @@ func safeCompile(src string) (v *libvore.Vore, class string) {
 	return p, ""
 }
 
-func withBudget(f func() string) (out string) {
+func withBudget(f func() string) (out string) { return withBudgetN(f, 1) }
+
+// withBudgetN: the step budget times n (a call that runs the program over n inputs)
+func withBudgetN(f func() string, n int) (out string) {
 	steps := 0
 	engine.VerifStepHook = func(pc, pos, nbt, nloops, ncalls int) {
 		steps++
-		if steps > stepBudget {
+		if steps > stepBudget*n {
 			panic(budgetExceeded{})
 		}
 	}
